@@ -439,24 +439,28 @@ class FST:
         fst_star = FST()
         state_renaming = FSTStateRemaining()
         state_renaming.add_states(list(self.states), 0)
-        self._add_extremity_states_to(fst_star, state_renaming, 0)
         self._add_transitions_to(fst_star, state_renaming, 0)
+        # A new state, both initial and final, is the only way in and out:
+        # the empty word is accepted and every iteration is a complete path
+        new_state = "star_start"
+        while new_state in self.states:
+            new_state += "#"
+        fst_star.add_start_state(new_state)
+        fst_star.add_final_state(new_state)
+        for start_state in self.start_states:
+            fst_star.add_transition(
+                new_state,
+                "epsilon",
+                state_renaming.get_name(start_state, 0),
+                []
+            )
         for final_state in self.final_states:
-            for start_state in self.start_states:
-                fst_star.add_transition(
-                    state_renaming.get_name(final_state, 0),
-                    "epsilon",
-                    state_renaming.get_name(start_state, 0),
-                    []
-                )
-        for final_state in self.start_states:
-            for start_state in self.final_states:
-                fst_star.add_transition(
-                    state_renaming.get_name(final_state, 0),
-                    "epsilon",
-                    state_renaming.get_name(start_state, 0),
-                    []
-                )
+            fst_star.add_transition(
+                state_renaming.get_name(final_state, 0),
+                "epsilon",
+                new_state,
+                []
+            )
         return fst_star
 
     def to_networkx(self) -> nx.MultiDiGraph:
